@@ -90,7 +90,10 @@ class CHECK(Check):
             " (e) fields whose span was moved after construction through the public starting_position / ending_position setters "
             "(narrowed, widened, shifted, start only / end only / both; so ending_position != starting_position + declared size), "
             "int/literal/float/date on str lines and literal/date on bytes lines, 1-3 reads, the characters just outside the new span "
-            "being value-changing ones (digits, exponents, date tails).")
+            "being value-changing ones (digits, exponents, date tails);"
+            " (f) several field objects over one span in one process: 1-3 other fields (the same kind with the other decimal "
+            "separator / other digits / notation / format order, or another kind) read every line just before the measured field "
+            "does, 1-4 lines, repeated lines included; only the measured field is judged, each configuration takes both roles.")
 
     def gen(self, tier, rng):
         maxlen = 3 if tier == "quick" else 4
@@ -240,6 +243,44 @@ class CHECK(Check):
                 case["lines"] = [[ord(c) for c in l] for l in case["lines"]]
                 case["bytes"] = True
             yield case
+        # (f) several field OBJECTS over the same span in one process (the columns of a format read by differently
+        # configured fields): 1-3 other fields -- the same kind with another decimal separator / digits / notation / format
+        # order, or another kind -- read every line just before the measured field does; what THEY made of the span is
+        # not the measured field's business
+        for _ in range(1500 if tier == "quick" else 30000):
+            fd = fl.gen_field(rng, kinds=("float", "float", "date", "int", "lit"), start=rng.randint(0, 4))
+            co = [self.gen_other(rng, fd) for _ in range(rng.choice([1, 1, 2, 3]))]
+            lines = []
+            for _ in range(rng.choice([1, 2, 2, 3, 4])):
+                if lines and rng.random() < 0.3:
+                    lines.append(rng.choice(lines))      # the same characters again
+                else:
+                    lines.append(self.gen_line(rng, rng.choice([fd] + co)))
+            yield {"fd": fd, "lines": lines, "bytes": False, "co": co}
+
+    @staticmethod
+    def gen_other(rng, fd):
+        """another field definition over the same span as fd"""
+        k = fd["k"]
+        r = rng.random()
+        if k == "float" and r < 0.7:
+            o = dict(fd)
+            c = rng.choice(["sep", "sep", "dd", "fmt"])
+            if c == "sep":
+                o["sep"] = "," if fd["sep"] == "." else "."
+            elif c == "dd":
+                o["dd"] = rng.randint(0, 8)
+            else:
+                o["fmt"] = rng.choice([x for x in "FfEe" if x != fd["fmt"]])
+            return o
+        if k == "date" and r < 0.7:
+            fm = list(reversed(fd["formats"])) if len(fd["formats"]) > 1 and rng.random() < 0.6 else rng.sample(fl.DATE_FORMATS, rng.choice([1, 2]))
+            return dict(fd, formats=fm, aslist=True)
+        if k in ("int", "lit") and r < 0.7:
+            return {"k": "float", "size": fd["size"], "start": fd["start"], "dd": rng.randint(0, 4), "fmt": rng.choice("FFE"), "sep": rng.choice(".,")}
+        o = fl.gen_field(rng, start=fd["start"])
+        o["size"] = fd["size"]
+        return o
 
     @staticmethod
     def gen_line(rng, fd):
@@ -288,10 +329,13 @@ class CHECK(Check):
                 f.starting_position = rs[0]
             if rs[1] is not None:
                 f.ending_position = rs[1]
+        others = [fl.mk_field(o) for o in case.get("co", ())]
         out = []
         for l in case["lines"]:
             arg = bytes(l) if case["bytes"] else l
             try:
+                for g in others:
+                    g.read(arg)
                 direct = f.read(arg)
                 r = line.read(arg)
             except BaseException as e:
@@ -351,6 +395,19 @@ class CHECK(Check):
             d["span_moved_by_setters"] = 1
             d["span_moved_" + ("start_only" if rs[1] is None else "end_only" if rs[0] is None else "both")] = 1
             d["span_%s_than_declared" % ("narrower" if fd["size"] < case["fd"]["size"] else "wider" if fd["size"] > case["fd"]["size"] else "same_width")] = 1
+        co = case.get("co")
+        if co:
+            d["other_fields_read_the_span_first"] = 1
+            d["other_fields_%d" % len(co)] = 1
+            for o in co:
+                if o["k"] != case["fd"]["k"]:
+                    d["other_field_of_another_kind"] = 1
+                elif o["k"] == "float" and o["sep"] != case["fd"]["sep"]:
+                    d["other_float_field_with_the_other_separator"] = 1
+                elif o["k"] == "date":
+                    d["other_date_field_with_other_formats"] = 1
+                else:
+                    d["other_field_same_kind_other_digits_or_notation"] = 1
         return d
 
     def signature(self, case, why):
@@ -362,6 +419,8 @@ class CHECK(Check):
                 c = dict(case)
                 c["lines"] = case["lines"][:i] + case["lines"][i + 1:]
                 yield c
+        # the other fields of a case ("co") are never shrunk away: state they left behind in this process would keep a
+        # candidate without them failing, and the replay must reproduce in a fresh process
 
     def neighbours(self, case, rng):
         fd = eff(case)
